@@ -326,6 +326,9 @@ pub fn mapframe_toks<const K: usize>(toks: [Tok; K]) {
 pub mod map {
     use super::*;
     proofs! {
+        // concrete probes of the composition clauses (the symbolic frames below are out of reach)
+        [push, sortt, sortv, boxed] fn c03_mapk_u_foo_u_bar() { mapframe_toks([lit(b"u"), lit(b"foo"), lit(b"u"), lit(b"bar")]) }
+        [push, sortt, sortv, boxed] fn c03_mapk_u_foo_x_a() { mapframe_toks([lit(b"u"), lit(b"foo"), lit(b"x"), lit(b"a")]) }
         [push, sortt, sortv, boxed] fn c03_map_u3_u3() { mapframe_toks([sing(b'u'), len(3), sing(b'u'), len(3)]) }
         [push, sortt, sortv, boxed] fn c03_map_u3_x3() { mapframe_toks([sing(b'u'), len(3), sing(b'x'), len(3)]) }
         [push, sortt, sortv, boxed] fn c03_map_t2_3_u3() { mapframe_toks([sing(b't'), len(2), len(3), sing(b'u'), len(3)]) }
